@@ -1,4 +1,5 @@
 import DaskModel.Lemmas.Repart
+import DaskModel.Lemmas.Truthful
 /-! # C44 — repartitioning preserves rows, order and requested layout (theorems) -/
 namespace Dask.C44
 open Dask.Repart
@@ -126,14 +127,7 @@ theorem lower_npartitions (new old : Nat) (interp : Option (List Nat)) :
 
 /-! ### RepartitionDivisions: full statement (validated by the tie, not yet proved) -/
 
-/-- known divisions `divs` describe `parts` truthfully -/
-def Truthful {α : Type} (key : α → Nat) (divs : List Nat) (parts : List (List α)) : Prop :=
-  parts.length + 1 = divs.length ∧
-  ∀ i p lo hi, parts[i]? = some p → divs[i]? = some lo → divs[i + 1]? = some hi →
-    ∀ r ∈ p, lo ≤ key r ∧ (key r < hi ∨ (i + 1 = parts.length ∧ key r ≤ hi))
-
-/-- a legal division vector: strictly increasing except that the last two entries may coincide -/
-def ValidDivs (d : List Nat) : Prop := 2 ≤ d.length ∧ d.dropLast.Pairwise (· < ·) ∧ d.Pairwise (· ≤ ·)
+open Dask.Divs (Truthful ValidDivs)
 
 /-- FULL STATEMENT for `repartition(divisions = b)` — rows, order and divisions exactly `b` -/
 def DivisionsFullStatement : Prop :=
